@@ -198,53 +198,105 @@ func checkC14(p *Prog, c *Check) {
 	p.cache["specctx"] = e
 	p.cache["spectag"] = "dec"
 	nwr := 0
-	for _, fn := range sortedFuncs(scope) {
-		if fn.Name() != "UnmarshalBinary" && !strings.Contains(qname(fn), "UnmarshalBinary") {
-			// only the decoders themselves and the closures they create
-			isDec := false
-			for f := fn; f != nil; f = f.Parent() {
-				if f.Name() == "UnmarshalBinary" {
-					isDec = true
-				}
-			}
-			if !isDec {
-				continue
-			}
+	provers := map[*ssa.Function]*Prover{}
+	proverOf := func(fn *ssa.Function) *Prover {
+		if pr, ok := provers[fn]; ok {
+			return pr
 		}
 		pr := NewProver(p, fn)
-		resolve := func(v ssa.Value) ssa.Value {
-			for i := 0; i < 12; i++ {
-				switch x := v.(type) {
-				case *ssa.Slice:
-					v = x.X
-				case *ssa.IndexAddr:
-					v = x.X
-				case *ssa.ChangeType:
-					v = x.X
-				case *ssa.UnOp:
-					if f, ok := pr.fwd[x]; ok {
-						v = f
+		provers[fn] = pr
+		return pr
+	}
+	resolveIn := func(fn *ssa.Function, v ssa.Value) ssa.Value {
+		pr := proverOf(fn)
+		for i := 0; i < 12; i++ {
+			switch x := v.(type) {
+			case *ssa.Slice:
+				v = x.X
+			case *ssa.IndexAddr:
+				v = x.X
+			case *ssa.ChangeType:
+				v = x.X
+			case *ssa.UnOp:
+				if f, ok := pr.fwd[x]; ok {
+					v = f
+					continue
+				}
+				return v
+			default:
+				return v
+			}
+		}
+		return v
+	}
+	isFresh := func(v ssa.Value) bool {
+		switch x := v.(type) {
+		case *ssa.MakeSlice, *ssa.Alloc, *ssa.Convert:
+			return true
+		case *ssa.Call:
+			if bi, ok := x.Call.Value.(*ssa.Builtin); ok && bi.Name() == "append" {
+				return true
+			}
+		case *ssa.Const:
+			return true
+		case *ssa.UnOp:
+			// a package variable that is never assigned holds nil: there is no storage behind it
+			if g, ok := x.X.(*ssa.Global); ok && x.Op == token.MUL && e.nilGlobals[g] {
+				return true
+			}
+		}
+		return false
+	}
+	// origin of the memory written: "" = allocated during the decode, otherwise what it is.  A parameter of a helper
+	// is followed to the arguments at the helper's call sites inside the decode scope.
+	var originOf func(fn *ssa.Function, v ssa.Value, depth int) string
+	originOf = func(fn *ssa.Function, v ssa.Value, depth int) string {
+		base := resolveIn(fn, v)
+		if isFresh(base) {
+			return ""
+		}
+		if ph, ok := base.(*ssa.Phi); ok && depth < 4 {
+			for _, ed := range ph.Edges {
+				if w := originOf(fn, ed, depth+1); w != "" {
+					return w
+				}
+			}
+			return ""
+		}
+		prm, isPrm := base.(*ssa.Parameter)
+		isDecoder := fn.Name() == "UnmarshalBinary" && fn.Signature.Recv() != nil
+		if isPrm && isDecoder && isByteSlice(prm.Type()) {
+			return "the decoder's input slice"
+		}
+		if isPrm && !isDecoder && depth < 4 {
+			idx := -1
+			for i, q := range fn.Params {
+				if q == prm {
+					idx = i
+				}
+			}
+			sites := e.callSitesOf[fn]
+			if idx >= 0 && len(sites) > 0 {
+				for _, site := range sites {
+					cc := site.Common()
+					if cc.IsInvoke() || cc.StaticCallee() != fn || idx >= len(cc.Args) || !scope[site.Parent()] {
+						if scope[site.Parent()] {
+							return "a buffer handed in through a call that is not followed (" + posOf(p, site) + ")"
+						}
 						continue
 					}
-					return v
-				default:
-					return v
+					if w := originOf(site.Parent(), cc.Args[idx], depth+1); w != "" {
+						return w + " (passed at " + posOf(p, site) + ")"
+					}
 				}
+				return ""
 			}
-			return v
 		}
-		isFresh := func(v ssa.Value) bool {
-			switch x := v.(type) {
-			case *ssa.MakeSlice, *ssa.Alloc, *ssa.Convert:
-				return true
-			case *ssa.Call:
-				if bi, ok := x.Call.Value.(*ssa.Builtin); ok && bi.Name() == "append" {
-					return true
-				}
-			case *ssa.Const:
-				return true
-			}
-			return false
+		return "storage the receiver held before the call (" + describeVal(base) + ")"
+	}
+	for _, fn := range sortedFuncs(scope) {
+		if fn.Blocks == nil {
+			continue
 		}
 		nw := 0
 		for _, b := range fn.Blocks {
@@ -276,16 +328,14 @@ func checkC14(p *Prog, c *Check) {
 				nw++
 				nwr++
 				cons := fmt.Sprintf("%s#inplace%d", qname(fn), nw)
-				base := resolve(dst)
-				if isFresh(base) {
+				switch w := originOf(fn, dst, 0); {
+				case w == "":
 					c.OK("R14.5", cons, posOf(p, ins), kind+" into memory allocated by this call")
-					continue
-				}
-				if prm, ok := base.(*ssa.Parameter); ok && isByteSlice(prm.Type()) {
+				case w == "the decoder's input slice":
 					c.Bad("R14.5", cons, posOf(p, ins), kind+" into the decoder's input slice")
-					continue
+				default:
+					c.Bad("R14.5", cons, posOf(p, ins), kind+" into "+w+": another packet sharing that slice is modified")
 				}
-				c.Bad("R14.5", cons, posOf(p, ins), kind+" into storage the receiver held before the call ("+describeVal(base)+"): another packet sharing that slice is modified")
 			}
 		}
 	}
